@@ -41,6 +41,14 @@ pub enum Op {
     Foreign(usize),
     /// verify every live block + the pool's own integrity check
     V,
+    // ---- compact ops of the huge_ families (histories with > 10^5 operations stay printable) ----
+    /// allocate `n` blocks, the i-th with size sizes[i % 4]
+    AMany(u32, [u32; 4]),
+    /// `n` frees of pseudo-randomly chosen live blocks (swap_remove order, LCG seeded with `seed`)
+    FMany(u32, u32),
+    /// free every live block, newest first / oldest first (linear time)
+    FAllLifo,
+    FAllFifo,
 }
 fn ops_str(ops: &[Op]) -> String {
     let mut s = String::new();
@@ -49,6 +57,7 @@ fn ops_str(ops: &[Op]) -> String {
             Op::A(n, 0) => s += &format!("a{n} "), Op::A(n, a) => s += &format!("a{n}/{a} "), Op::F(k) => s += &format!("f{k} "), Op::FNew => s += "fn ", Op::FOld => s += "fo ",
             Op::FAll => s += "fall ", Op::Fill(n, m) => s += &format!("fill{n}x{m} "), Op::Refill(n, m) => s += &format!("refill{n}x{m} "), Op::Refuse(n) => s += &format!("refuse{n:#x} "),
             Op::Foreign(n) => s += &format!("foreign{n} "), Op::V => s += "v ",
+            Op::AMany(n, z) => s += &format!("amany{n}x{z:?} "), Op::FMany(n, sd) => s += &format!("fmany{n}s{sd} "), Op::FAllLifo => s += "fall_lifo ", Op::FAllFifo => s += "fall_fifo ",
         }
     }
     s
@@ -88,7 +97,7 @@ pub trait Pool {
 #[derive(Clone, Copy)]
 struct Blk { id: u64, addr: usize, usable: usize, req: usize }
 #[derive(Default)]
-struct St { sh: Shadow, live: Vec<Blk>, next_id: u64, lo: usize, hi: usize, allocs: u64, refused: u64, frees: u64, reused: u64, freed_addrs: std::collections::HashSet<usize>, last_fill: HashMap<usize, u32>, live_bytes: usize, since_verify: usize, after_bad_free: Option<u64>, deferred: Option<Fail>, misaligned: u64 }
+struct St { sh: Shadow, live: Vec<Blk>, next_id: u64, lo: usize, hi: usize, allocs: u64, refused: u64, frees: u64, reused: u64, freed_addrs: std::collections::HashSet<usize>, last_fill: HashMap<usize, u32>, live_bytes: usize, since_verify: usize, after_bad_free: Option<u64>, deferred: Option<Fail>, misaligned: u64, sparse: bool }
 
 const DENSE: usize = 8192;
 fn pat_for(id: u64) -> u8 { (id % 251) as u8 + 1 }
@@ -160,12 +169,18 @@ fn do_alloc(c: &mut Case, pool: &mut dyn Pool, pr: &Props, st: &mut St, size: us
 
 fn do_free(c: &mut Case, pool: &mut dyn Pool, pr: &Props, st: &mut St, idx: usize, when: &str) -> Res {
     let b = st.live.remove(idx);
+    do_free_blk(c, pool, pr, st, b, when)
+}
+fn do_free_blk(c: &mut Case, pool: &mut dyn Pool, pr: &Props, st: &mut St, b: Blk, when: &str) -> Res {
     verify_blk(c, st, &b, pr.mem, &format!("{when}: before free of #{}", b.id))?;
     st.sh.remove(b.addr); st.live_bytes -= b.usable; st.freed_addrs.insert(b.addr);
     let r = catch(|| pool.free(b.id, b.addr, b.req)).map_err(|p| pfail(&format!("{when}: free(#{} size {})", b.id, b.req), p))?;
     if let Err(e) = r { return Err(bad("free_err", format!("{when}: free of valid live block #{} (size {}) returned Err: {e}", b.id, b.req))); }
     st.frees += 1; st.since_verify += 1;
     // "freeing returns the block without disturbing any other live block"
+    // huge_ histories: each block is still verified right before its own free; the sweep over ALL live blocks is
+    // amortised to a handful per drain (it would be quadratic with > 10^5 live blocks)
+    if st.sparse { if st.since_verify >= st.live.len() / 3 + 4096 { verify_all(c, st, pr.mem, &format!("{when}: after free of #{} (size {})", b.id, b.req))?; } return Ok(()); }
     if st.live_bytes <= 1 << 16 || st.since_verify.saturating_mul(1 << 16) >= st.live_bytes { verify_all(c, st, pr.mem, &format!("{when}: after free of #{} (size {})", b.id, b.req))?; }
     Ok(())
 }
@@ -215,6 +230,22 @@ fn exec(c: &mut Case, pool: &mut dyn Pool, ops: &[Op], st: &mut St) -> Res {
                     st.after_bad_free = Some(0);
                 }
             }
+            Op::AMany(n, sizes) => {
+                let mut got = 0u64;
+                for i in 0..n as usize {
+                    let size = sizes[i % 4] as usize;
+                    let must_refuse = pr.cap_req.map_or(false, |cap| size > cap) || pr.cap_blocks.map_or(false, |nb| st.live.len() >= nb);
+                    if do_alloc(c, pool, &pr, st, size, 0, must_refuse, &when)? { got += 1; }
+                }
+                c.note("amany_blocks", got); if st.live.len() > 65536 { c.note("live_gt_65536", 1); } if st.live.len() > 100_000 { c.note("live_gt_100000", 1); }
+                verify_all(c, st, pr.mem, &when)?;
+            }
+            Op::FMany(n, seed) => {
+                let mut x = seed as u64 | 1;
+                for _ in 0..n { if st.live.is_empty() { break; } x = x.wrapping_mul(6364136223846793005).wrapping_add(1442695040888963407); let idx = (x >> 33) as usize % st.live.len(); let b = st.live.swap_remove(idx); do_free_blk(c, pool, &pr, st, b, &when)?; }
+            }
+            Op::FAllLifo => { while let Some(b) = st.live.pop() { do_free_blk(c, pool, &pr, st, b, &when)?; } }
+            Op::FAllFifo => { st.live.reverse(); while let Some(b) = st.live.pop() { do_free_blk(c, pool, &pr, st, b, &when)?; } }
             Op::V => {
                 verify_all(c, st, pr.mem, &when)?;
                 let r = catch(|| pool.selfcheck()).map_err(|p| pfail(&format!("{when}: pool self-check"), p))?;
@@ -351,20 +382,95 @@ fn no_tags() -> Tagger { Box::new(|_, _| {}) }
 /// Run one history case: build the pool, generate the ops from the case rng, execute, clean up.
 fn history(c: &mut Case, fam: Fam, mk: impl FnOnce(&mut Case) -> Result<Setup, Fail>) -> Res {
     let quick = c.tier == crate::ctx::Tier::Quick;
+    history_ops(c, mk, false, |r, tab, pr| gen_ops(r, fam, tab, pr, quick))
+}
+fn history_ops(c: &mut Case, mk: impl FnOnce(&mut Case) -> Result<Setup, Fail>, sparse: bool, gen: impl FnOnce(&mut Rng, &SizeTab, &Props) -> Vec<Op>) -> Res {
     let Setup { mut pool, tab, tagger } = mk(c)?;
     let pr = pool.props();
     let tab = match pr.fixed { Some(ch) => fixed_tab(ch), None => tab };
-    let ops = gen_ops(&mut c.rng, fam, &tab, &pr, quick);
+    let ops = gen(&mut c.rng, &tab, &pr);
     c.input_str("ops", &ops_str(&ops));
     tagger(&ops, c);
     for o in &ops { if let Op::Refuse(s) = *o { if s > usize::MAX - 4096 { c.tag("size_near_usize_max"); } } }
-    let mut st = St::default();
+    let mut st = St::default(); st.sparse = sparse;
     let r = exec(c, &mut *pool, &ops, &mut st);
     c.note("allocs", st.allocs); c.note("frees", st.frees); c.note("refused", st.refused); c.note("reused_addr", st.reused); c.note("content_checks", st.sh.checks);
     c.set_nontrivial(st.allocs >= 2 && st.frees >= 1);
     pool.notes(c);
     c.note("misaligned_blocks", st.misaligned);
     match r { Ok(()) => { drop(pool); match st.deferred.take() { Some(mut f) => { f.detail += &format!(" ({} of {} blocks misaligned)", st.misaligned, st.allocs); Err(f) } None => Ok(()) } } Err(e) => { pool.abandon(); Err(e) } }
+}
+
+// ------------------------------------------------------------------------------------------------
+// huge_ families: > 65536 / > 10^5 live blocks, sizes around 2^16 / 2^17 / 2^20 / MiB, many exhaust-refill rounds,
+// rare configuration combinations. Same oracles; the all-blocks sweep is amortised (St::sparse).
+// ------------------------------------------------------------------------------------------------
+#[derive(Clone, Copy, PartialEq, Debug)]
+pub enum Huge { Live, Cycle, Sizes, Cfg }
+impl Huge { fn name(self) -> &'static str { match self { Huge::Live => "huge_live", Huge::Cycle => "huge_cycle", Huge::Sizes => "huge_sizes", Huge::Cfg => "huge_cfg" } } }
+pub const HUGE_SIZES: &[usize] = &[65535, 65536, 65537, 131071, 131072, 131073, 131074, (1 << 20) - 1, 1 << 20, (1 << 20) + 1, (2 << 20) - 1, 2 << 20, (2 << 20) + 1, 3 << 20];
+pub const HUGE_COUNTS: &[usize] = &[65_537, 100_003, 131_073];
+
+fn gen_huge(r: &mut Rng, kind: Huge, t: &SizeTab, pr: &Props) -> Vec<Op> {
+    let mut ops = Vec::new();
+    let drain = |r: &mut Rng| if r.bool() { Op::FAllLifo } else { Op::FAllFifo };
+    match kind {
+        Huge::Live => {
+            // very many live blocks of a few small sizes, random frees, refill, drain, reuse
+            let mut n = *r.pick(HUGE_COUNTS);
+            if let Some(nb) = pr.cap_blocks { n = n.min(nb + 3); }
+            let small: Vec<usize> = t.bounds.iter().copied().filter(|&b| b >= t.min.max(1) && b <= 64.max(t.min)).collect();
+            let mut pick4 = |r: &mut Rng| -> [u32; 4] { let mut z = [0u32; 4]; for x in z.iter_mut() { *x = if small.is_empty() { t.min.max(1).max(t.max.min(64)) } else if r.chance(1, 4) { (*r.pick(&small)).saturating_sub(1).max(t.min.max(1)) } else { *r.pick(&small) } as u32; } z };
+            let z = pick4(r);
+            ops.push(Op::AMany(n as u32, z)); ops.push(Op::A(z[0] as usize, 0)); ops.push(Op::V);
+            ops.push(Op::FMany((n / 2) as u32, r.next() as u32));
+            let z2 = pick4(r); ops.push(Op::AMany((n / 4) as u32, z2)); ops.push(Op::V);
+            ops.push(Op::FMany((n / 8) as u32, r.next() as u32)); ops.push(drain(r));
+            ops.push(Op::AMany(2000, z)); ops.push(Op::V); ops.push(drain(r));
+        }
+        Huge::Cycle => {
+            // exhaust and refill the arena several times with one size (every block is handed back under that size)
+            let cap = pr.cap_blocks.map(|b| b * t.max.max(1)).or(pr.window).or(pr.abs_cap).unwrap_or(1 << 22);
+            let blocks = *r.pick(&[6_000usize, 20_000, 66_000]);
+            let s = if pr.cap_blocks.is_some() { pick_size(r, t, false) } else { (cap / blocks).clamp(t.min.max(1), t.max.max(1)) };
+            let max = 200_000u32;
+            ops.push(Op::Fill(s, max)); ops.push(Op::A(s, 0)); ops.push(Op::V);
+            ops.push(Op::FMany(r.usize_below(5000) as u32, r.next() as u32)); ops.push(drain(r));
+            for k in 0..5 + r.usize_below(4) {
+                ops.push(Op::Refill(s, max)); ops.push(Op::A(s, 0));
+                if k % 2 == 1 { ops.push(Op::FMany(r.usize_below(3000) as u32, r.next() as u32)); }
+                ops.push(drain(r));
+            }
+        }
+        Huge::Sizes => {
+            // requests just below / at / above 2^16, 2^17, 2^20, 2 MiB (+ a few MiB), few live at a time
+            let lim = t.max.max(1);
+            let mut tt = t.clone();
+            tt.bounds = HUGE_SIZES.iter().copied().filter(|&b| b <= lim).collect();
+            if tt.bounds.is_empty() { tt.bounds = vec![lim]; }
+            tt.big.clear(); tt.exact = r.chance(2, 3); tt.live_bytes = 24 << 20; tt.min = tt.min.max(1);
+            let n = 60 + r.usize_below(120);
+            let mut live = 0usize; let mut bytes = 0usize; let mut sizes: Vec<usize> = Vec::new();
+            for i in 0..n {
+                if live == 0 || (live < 6 && r.chance(3, 5)) {
+                    let sz = pick_size(r, &tt, false);
+                    if bytes + sz > tt.live_bytes && live > 0 { ops.push(Op::FOld); live -= 1; bytes -= sizes.remove(0); continue; }
+                    ops.push(Op::A(sz, pick_align(r, &tt))); live += 1; bytes += sz; sizes.push(sz);
+                } else { ops.push(Op::FOld); live -= 1; bytes -= sizes.remove(0); }
+                if i % 31 == 30 { ops.push(Op::V); }
+            }
+            ops.push(Op::V); ops.push(Op::FAllLifo);
+        }
+        Huge::Cfg => {
+            let fam = *r.pick(&[Fam::Mixed, Fam::Mixed, Fam::Pairs, Fam::Exhaust]);
+            let fam = if fam == Fam::Exhaust && pr.cap_blocks.is_none() && pr.window.is_none() && pr.abs_cap.is_none() { Fam::Mixed } else { fam };
+            ops = gen_ops(r, fam, t, pr, true);
+        }
+    }
+    ops
+}
+fn history_huge(c: &mut Case, kind: Huge, mk: impl FnOnce(&mut Case) -> Result<Setup, Fail>) -> Res {
+    history_ops(c, mk, kind == Huge::Live || kind == Huge::Cycle, |r, tab, pr| gen_huge(r, kind, tab, pr))
 }
 
 /// Run `f` on a fresh thread (thread-local pool caches are per-thread statics that survive the pool and cannot be
@@ -386,8 +492,10 @@ fn class_of(tab: &[usize], n: usize) -> Option<usize> { tab.iter().position(|&b|
 /// different (8-byte rounded) lengths
 fn mixed_carve_in_class(ops: &[Op], classes: &[usize], raw_class: bool) -> bool {
     let mut seen: HashMap<usize, usize> = HashMap::new(); let mut hit = false;
-    for o in ops { let s = match *o { Op::A(s, _) | Op::Fill(s, _) | Op::Refill(s, _) => s, _ => continue }; let carve = up8(s); if let Some(k) = class_of(classes, if raw_class { s } else { carve }) { match seen.get(&k) { Some(&c0) if c0 != carve => hit = true, Some(_) => {}, None => { seen.insert(k, carve); } } } }
-    hit && ops.iter().any(|o| matches!(o, Op::F(_) | Op::FNew | Op::FOld | Op::FAll))
+    let mut all: Vec<usize> = Vec::new();
+    for o in ops { match *o { Op::A(s, _) | Op::Fill(s, _) | Op::Refill(s, _) => all.push(s), Op::AMany(_, z) => all.extend(z.iter().map(|&x| x as usize)), _ => {} } }
+    for s in all { let carve = up8(s); if let Some(k) = class_of(classes, if raw_class { s } else { carve }) { match seen.get(&k) { Some(&c0) if c0 != carve => hit = true, Some(_) => {}, None => { seen.insert(k, carve); } } } }
+    hit && ops.iter().any(|o| matches!(o, Op::F(_) | Op::FNew | Op::FOld | Op::FAll | Op::FMany(..) | Op::FAllLifo | Op::FAllFifo))
 }
 
 // ---- LockFreeMemoryPool ----
@@ -409,6 +517,8 @@ impl Pool for LfAd {
 }
 fn lf_cfg(c: &mut Case, which: &str) -> LockFreePoolConfig {
     let mut cfg = match which { "default" => LockFreePoolConfig::default(), "highperf" => LockFreePoolConfig::high_performance(), "compact" => LockFreePoolConfig::compact(),
+        // huge_cfg: arena sizes just above powers of two (not multiples of 8 / of any bin size)
+        "huge_cfg" => { let mut k = LockFreePoolConfig::compact(); k.memory_size = *c.rng.pick(&[65_537usize, 131_073, 196_609, 262_145, (1 << 20) + 1, (1 << 20) + 7]); k.zero_on_free = c.rng.bool(); k.enable_simd_optimization = c.rng.bool(); k.enable_stats = c.rng.bool(); k }
         _ => { let mut k = LockFreePoolConfig::compact(); k.memory_size = *c.rng.pick(&[16384usize, 32768, 65536, 100_000, 262_144]); k.zero_on_free = c.rng.bool(); k.enable_simd_optimization = c.rng.bool(); k } };
     cfg.backoff_strategy = BackoffStrategy::None;
     cfg
@@ -447,6 +557,9 @@ impl Pool for SecAd {
 fn sec_cfg(c: &mut Case, which: &str) -> SecurePoolConfig {
     match which {
         "small" => SecurePoolConfig::small_secure(), "medium" => SecurePoolConfig::medium_secure(), "large" => SecurePoolConfig::large_secure(),
+        "huge_cfg" => SecurePoolConfig::new(*c.rng.pick(&[1usize, 7, 100, 1001, 4097, 65_537]), *c.rng.pick(&[1usize, 3, 100]), *c.rng.pick(&[16usize, 64, 256, 4096])).with_local_cache_size(*c.rng.pick(&[0usize, 1, 3, 64])).with_zero_on_free(c.rng.bool()).with_zero_on_alloc(c.rng.bool()).with_simd_ops(c.rng.bool()),
+        "huge_live" => SecurePoolConfig::new(*c.rng.pick(&[8usize, 64]), 100, 8).with_local_cache_size(*c.rng.pick(&[0usize, 4, 64])).with_zero_on_free(c.rng.bool()),
+        "huge_sizes" => SecurePoolConfig::new(*c.rng.pick(HUGE_SIZES), 8, *c.rng.pick(&[8usize, 8, 64, 4096])).with_local_cache_size(*c.rng.pick(&[1usize, 4])).with_zero_on_alloc(c.rng.bool()),
         "a8" => SecurePoolConfig::new(*c.rng.pick(&[8usize, 64, 256, 1000]), 16, 8),
         "odd_chunk" => SecurePoolConfig::new(*c.rng.pick(&[1usize, 7, 100, 1001]), 16, 8),
         "a16" => SecurePoolConfig::new(*c.rng.pick(&[16usize, 64, 256, 1000]), 16, 16),
@@ -483,6 +596,15 @@ impl Pool for TlAd {
 }
 impl Drop for TlAd { fn drop(&mut self) { self.guards.clear(); self.pool.clear_caches(); } }
 fn tl_cfg(which: &str) -> ThreadLocalPoolConfig { match which { "default" => ThreadLocalPoolConfig::default(), "highperf" => ThreadLocalPoolConfig::high_performance(), _ => ThreadLocalPoolConfig::compact() } }
+/// huge_cfg: arena sizes just above powers of two, tiny / empty class caches
+fn tl_custom_cfg(c: &mut Case) -> ThreadLocalPoolConfig {
+    ThreadLocalPoolConfig { arena_size: *c.rng.pick(&[65_537usize, 131_073, 262_145, (1 << 20) + 1]), max_threads: 4, enable_stats: c.rng.bool(), sync_threshold: *c.rng.pick(&[1isize, 4096, 256 * 1024]), max_cached_chunks: *c.rng.pick(&[0usize, 1, 64]), use_secure_memory: c.rng.bool() }
+}
+fn tl_mk_cfg(c: &mut Case, which: &str, cfg: ThreadLocalPoolConfig) -> Result<Box<dyn Pool>, Fail> {
+    c.input_str("cfg", &format!("{which} arena={} max_cached={} secure={} sync={}", cfg.arena_size, cfg.max_cached_chunks, cfg.use_secure_memory, cfg.sync_threshold));
+    let pool = match catch(|| ThreadLocalMemoryPool::new(cfg)) { Ok(Ok(p)) => p, Ok(Err(e)) => return Err(bad("ctor_err", format!("ThreadLocalMemoryPool::new: {e}"))), Err(p) => return Err(pfail("ThreadLocalMemoryPool::new", p)) };
+    Ok(Box::new(TlAd { guards: HashMap::new(), pool }))
+}
 fn tl_mk(c: &mut Case, which: &str) -> Result<Box<dyn Pool>, Fail> {
     let cfg = tl_cfg(which); c.input_str("cfg", &format!("{which} arena={} max_cached={} secure={}", cfg.arena_size, cfg.max_cached_chunks, cfg.use_secure_memory));
     let pool = match catch(|| ThreadLocalMemoryPool::new(cfg)) { Ok(Ok(p)) => p, Ok(Err(e)) => return Err(bad("ctor_err", format!("ThreadLocalMemoryPool::new: {e}"))), Err(p) => return Err(pfail("ThreadLocalMemoryPool::new", p)) };
@@ -496,7 +618,7 @@ fn tl_tab(arena: usize, roll: bool) -> SizeTab {
 fn tl_tags(arena: usize) -> impl Fn(&[Op], &mut Case) {
     move |ops, c| {
         if mixed_carve_in_class(ops, TL_CLASSES, true) { c.tag("tl_class_mixed_sizes"); }
-        let total: usize = ops.iter().map(|o| match *o { Op::A(s, _) => up8(s), Op::Fill(s, m) | Op::Refill(s, m) => up8(s).saturating_mul(m as usize), _ => 0 }).fold(0usize, |a, b| a.saturating_add(b));
+        let total: usize = ops.iter().map(|o| match *o { Op::A(s, _) => up8(s), Op::Fill(s, m) | Op::Refill(s, m) => up8(s).saturating_mul(m as usize), Op::AMany(n, z) => (n as usize).saturating_mul(up8(*z.iter().max().unwrap() as usize)), _ => 0 }).fold(0usize, |a, b| a.saturating_add(b));
         if total > arena { c.tag("tl_arena_roll"); }
         if ops.iter().any(|o| matches!(o, Op::A(s, _) if *s > arena / 4)) { c.tag("tl_size_gt_quarter_arena"); }
     }
@@ -525,6 +647,12 @@ fn fc_classes(max_size: usize, alignment: usize) -> Vec<usize> {
 fn fc_cfg(c: &mut Case, which: &str) -> FixedCapacityPoolConfig {
     match which {
         "small" => FixedCapacityPoolConfig::small_objects(), "medium" => FixedCapacityPoolConfig::medium_objects(), "realtime" => FixedCapacityPoolConfig::realtime(), "secure" => FixedCapacityPoolConfig::secure(),
+        // huge_: more than 2^16 / 10^5 / 2^17 blocks
+        "huge_blocks" => FixedCapacityPoolConfig { max_block_size: *c.rng.pick(&[16usize, 24, 40, 48]), total_blocks: *c.rng.pick(HUGE_COUNTS), alignment: *c.rng.pick(&[8usize, 16]), enable_stats: c.rng.bool(), eager_allocation: c.rng.bool(), secure_clear: c.rng.bool() },
+        // huge_: lazy/eager x block size not a multiple of the alignment x alignment 16..4096
+        "huge_cfg" => FixedCapacityPoolConfig { max_block_size: *c.rng.pick(&[24usize, 100, 1000, 4097, 5000, 65_537]), total_blocks: *c.rng.pick(&[3usize, 17, 64]), alignment: *c.rng.pick(&[16usize, 64, 256, 4096]), enable_stats: c.rng.bool(), eager_allocation: c.rng.bool(), secure_clear: c.rng.bool() },
+        // huge_: blocks just above 2^16 / 2^17
+        "huge_sizes" => FixedCapacityPoolConfig { max_block_size: *c.rng.pick(&[65_536usize, 65_537, 131_073, (1 << 20) + 1]), total_blocks: *c.rng.pick(&[3usize, 9]), alignment: *c.rng.pick(&[8usize, 16, 64]), enable_stats: true, eager_allocation: c.rng.bool(), secure_clear: false },
         // blocks smaller than the 16-byte free-list header. Block counts are chosen so that the header the constructor
         // writes into the LAST block (8 resp. 4 bytes past the arena) still lands in malloc's size-class slack.
         "tiny_block" => { let (max_block_size, total_blocks) = *c.rng.pick(&[(8usize, 8usize), (8, 50), (12, 8)]); FixedCapacityPoolConfig { max_block_size, total_blocks, alignment: if max_block_size == 12 { 4 } else { 8 }, enable_stats: true, eager_allocation: c.rng.bool(), secure_clear: false } }
@@ -560,6 +688,9 @@ impl Pool for MpAd {
 }
 fn mp_mk(c: &mut Case, which: &str) -> Result<Box<dyn Pool>, Fail> {
     let cfg = match which { "small" => PoolConfig::small(), "medium" => PoolConfig::medium(), "large" => PoolConfig::large(),
+        "huge_cfg" => PoolConfig::new(*c.rng.pick(&[1usize, 7, 100, 4097, 65_537]), *c.rng.pick(&[0usize, 1, 3]), *c.rng.pick(&[16usize, 64, 4096])),
+        "huge_live" => PoolConfig::new(*c.rng.pick(&[8usize, 24]), *c.rng.pick(&[0usize, 100, 200_000]), 8),
+        "huge_sizes" => PoolConfig::new(*c.rng.pick(HUGE_SIZES), *c.rng.pick(&[1usize, 4]), *c.rng.pick(&[8usize, 64])),
         _ => PoolConfig::new(*c.rng.pick(&[1usize, 8, 24, 100, 4096, 70_000]), *c.rng.pick(&[0usize, 1, 2, 16, 100]), *c.rng.pick(&[1usize, 8, 16, 64, 4096])) };
     c.input_str("cfg", &format!("{which} chunk={} max_chunks={} align={}", cfg.chunk_size, cfg.max_chunks, cfg.alignment));
     let (chunk, align) = (cfg.chunk_size, cfg.alignment);
@@ -641,8 +772,21 @@ fn five_cfg(c: &mut Case) -> (FiveLevelPoolConfig, &'static str) {
     let k = c.rng.below(4);
     match k { 0 => (FiveLevelPoolConfig::default(), "default"), 1 => (FiveLevelPoolConfig::performance_optimized(), "performance"), 2 => (FiveLevelPoolConfig::memory_optimized(), "memory"), _ => (FiveLevelPoolConfig::realtime(), "realtime") }
 }
-fn five_mk(c: &mut Case, which: &str) -> Result<Setup, Fail> {
-    let (cfg, name) = five_cfg(c);
+fn five_mk(c: &mut Case, which: &str) -> Result<Setup, Fail> { five_mk_with(c, which, 0) }
+/// mode 0: the presets; 1: huge_ (room for > 131073 blocks); 2: huge_cfg (rare alignment / capacity combinations)
+fn five_mk_with(c: &mut Case, which: &str, mode: u8) -> Result<Setup, Fail> {
+    let (mut cfg, mut name) = five_cfg(c);
+    if mode == 1 {
+        cfg = if c.rng.bool() { name = "huge/performance"; FiveLevelPoolConfig::performance_optimized() } else { name = "huge/realtime"; FiveLevelPoolConfig::realtime() };
+        cfg.initial_capacity = cfg.initial_capacity.max(8 << 20) + *c.rng.pick(&[0usize, 8, 65_536]);
+    } else if mode == 2 {
+        name = "huge_cfg";
+        cfg.alignment = *c.rng.pick(&[4usize, 16, 64, 256, 4096]);
+        cfg.max_fast_block_size = cfg.alignment * *c.rng.pick(&[2usize, 8, 64]);
+        cfg.initial_capacity = *c.rng.pick(&[65_537usize, 131_073, 196_609, 262_145, (1 << 20) + 1]);
+        cfg.arena_size = *c.rng.pick(&[65_537usize, 131_073, 1 << 20]);
+        cfg.fixed_capacity = if c.rng.bool() { Some(*c.rng.pick(&[65_537usize, 131_073, 262_145])) } else { None };
+    }
     let level = match which { "ad_l1" => Some(ConcurrencyLevel::SingleThread), "ad_l2" => Some(ConcurrencyLevel::MultiThreadMutex), "ad_l3" => Some(ConcurrencyLevel::MultiThreadLockFree), "ad_l4" => Some(ConcurrencyLevel::ThreadLocal), "ad_l5" => Some(ConcurrencyLevel::FixedCapacity), _ => None };
     let fixedcap = which == "fixed" || which == "ad_l5" || (which == "ad_new" && cfg.fixed_capacity.is_some());
     let mut cap = if fixedcap { cfg.fixed_capacity.unwrap_or(cfg.initial_capacity) } else { cfg.initial_capacity };
@@ -670,7 +814,7 @@ fn five_tagger(which: &str, cfg: &FiveLevelPoolConfig) -> Tagger {
         if ops.iter().any(|o| matches!(o, Op::A(s, _) | Op::Fill(s, _) | Op::Refill(s, _) if up(*s) > mf)) { c.tag("five_huge_block"); }
         if tl {
             // the thread-local hot area and the global pool both number their blocks from offset 0
-            let total: usize = ops.iter().map(|o| match *o { Op::A(s, _) => up(s), Op::Fill(s, m) | Op::Refill(s, m) => up(s).saturating_mul(m as usize), _ => 0 }).fold(0usize, |x, y| x.saturating_add(y));
+            let total: usize = ops.iter().map(|o| match *o { Op::A(s, _) => up(s), Op::Fill(s, m) | Op::Refill(s, m) => up(s).saturating_mul(m as usize), Op::AMany(n, z) => (n as usize).saturating_mul(up(*z.iter().max().unwrap() as usize)), _ => 0 }).fold(0usize, |x, y| x.saturating_add(y));
             if total > hot || ops.iter().any(|o| matches!(o, Op::A(s, _) | Op::Fill(s, _) | Op::Refill(s, _) if up(*s) > mf)) { c.tag("tl5_local_and_global_offsets"); }
         }
     })
@@ -813,11 +957,14 @@ fn cachevec_case<T: PatT>(c: &mut Case, micro: bool) -> Res {
 }
 
 /// PooledBuffer / PooledVec<u64> on the global MemoryPools.
-fn pooled_case(c: &mut Case, micro: bool) -> Res {
-    let n_ops = if micro { 30 + c.rng.usize_below(70) } else { 100 + c.rng.usize_below(500) };
+fn pooled_case(c: &mut Case, micro: bool) -> Res { pooled_case_m(c, micro, false) }
+fn pooled_case_m(c: &mut Case, micro: bool, huge: bool) -> Res {
+    let n_ops = if huge { 60 + c.rng.usize_below(100) } else if micro { 30 + c.rng.usize_below(70) } else { 100 + c.rng.usize_below(500) };
     let sizes = [1usize, 8, 100, 1023, 1024, 1025, 4096, 65535, 65536, 65537, 200_000, (1 << 20) - 1, 1 << 20, (1 << 20) + 1, 3 << 19];
-    let mut plan: Vec<(u8, usize)> = Vec::new(); let over = !micro && c.rng.chance(1, 4);
-    for _ in 0..n_ops { let k = c.rng.below(10) as u8; let s = if micro || c.rng.chance(2, 3) { sizes[c.rng.usize_below(7)] } else if over { *c.rng.pick(&sizes) } else { sizes[c.rng.usize_below(13)] }; plan.push((k, s)); }
+    let mut plan: Vec<(u8, usize)> = Vec::new(); let over = !micro && !huge && c.rng.chance(1, 4);
+    // huge_sizes: only buffers at the 2^16 / 2^17 / 2^20 limits (the medium / large global pools)
+    let hs = [65_535usize, 65_536, 65_537, 131_071, 131_072, 131_073, 131_074, (1 << 20) - 1, 1 << 20, (1 << 20) + 1];
+    for _ in 0..n_ops { let k = c.rng.below(10) as u8; if huge { plan.push((if k == 4 || k == 5 { 0 } else { k }, *c.rng.pick(&hs))); continue; } let s = if micro || c.rng.chance(2, 3) { sizes[c.rng.usize_below(7)] } else if over { *c.rng.pick(&sizes) } else { sizes[c.rng.usize_below(13)] }; plan.push((k, s)); }
     c.input_str("ops", &plan.iter().map(|&(k, s)| match k { 0..=3 => format!("buf{s} "), 4 | 5 => "vec ".to_string(), _ => format!("drop{s} ") }).collect::<String>());
     if plan.iter().any(|&(k, s)| k <= 3 && s > 1 << 20) { c.tag("pooledbuf_gt_1mb"); }
     enum Obj { B(PooledBuffer), V(PooledVec<u64>) }
@@ -894,6 +1041,99 @@ fn secure_overflow_case(c: &mut Case, native: bool) -> Res {
         c.ev(1); c.note("heap_growth_bytes", b.saturating_sub(a) as u64);
         ensure!(b < a + 2 * chunk, "free_leaks_block", "{rounds} rounds of allocate {k} / free {k} (thread-local cache holds {cache}) grew the heap by {} bytes (= {} chunks of {chunk}); pool_misses={} — chunks freed while the thread-local cache is full are neither reusable nor released", b - a, (b - a) / chunk, s.pool_misses);
     } else { c.note("leak_check_skipped", 1); }
+    Ok(())
+}
+
+/// huge_: bump capacities just above powers of two; > 65536 / > 10^5 / > 2^17 tiny blocks until the allocator refuses; blocks of
+/// 2^16 +- 1 bytes with large alignments; alloc_slice / BumpVec with > 65536 elements.
+fn bump_huge_case(c: &mut Case, scoped: bool) -> Res {
+    let cap = *c.rng.pick(&[65_537usize, 131_073, 196_609, 262_145, (1 << 20) + 1, (4 << 20) + 3]);
+    let mode = c.rng.below(3);
+    c.input_str("cfg", &format!("capacity={cap} scoped={scoped} mode={}", ["tiny_blocks", "big_blocks", "typed"][mode as usize]));
+    let arena = if scoped { Some(BumpArena::new(cap).map_err(|e| bad("ctor_err", e.to_string()))?) } else { None };
+    let plain = if scoped { None } else { Some(BumpAllocator::new(cap).map_err(|e| bad("ctor_err", e.to_string()))?) };
+    let scope = arena.as_ref().map(|a| a.scope());
+    let alloc = |size: usize, align: usize| -> Result<Result<usize, String>, PanicInfo> { catch(|| match (&plain, &scope) { (Some(b), _) => b.alloc_bytes(size, align), (_, Some(s)) => s.alloc_bytes(size, align), _ => unreachable!() }.map(|p| p.as_ptr() as usize).map_err(|e| e.to_string())) };
+    let remaining = || match (&plain, &scope) { (Some(b), _) => b.remaining_bytes(), (_, Some(s)) => s.stats().remaining_bytes, _ => 0 };
+    let mut sh = Shadow::new(); let mut base: Option<usize> = None; let mut n = 0u64;
+    let mut script = String::new();
+    let mut put = |c: &mut Case, sh: &mut Shadow, size: usize, align: usize, addr: usize, n: u64| -> Res {
+        let used = cap - remaining();
+        let b = *base.get_or_insert((addr + size).wrapping_sub(used));
+        ensure!(addr % align == 0, "misaligned", "block {n}: alloc_bytes({size}, align {align}) returned {addr:#x}");
+        ensure!(addr >= b && addr + size <= b + cap, "out_of_arena", "block {n}: [{addr:#x},+{size}) outside the {cap}-byte buffer at {b:#x}");
+        if let Some(o) = sh.overlap(addr, size) { return Err(bad("overlap", format!("block {n}: alloc_bytes({size}, {align}): {o}"))); }
+        let pat = pat_for(n); unsafe { sh.insert_fill(addr, size, pat); }
+        c.ev(3); Ok(())
+    };
+    match mode {
+        0 => { // tiny blocks until refusal: capacity / size live blocks (> 65536 for every capacity here with size 1)
+            let size = (*c.rng.pick(&[1usize, 1, 2, 3])).max((cap + 262_143) / 262_144); let align = *c.rng.pick(&[1usize, 1, 2]); script = format!("b{size}/{align} until refused");
+            loop {
+                match alloc(size, align).map_err(|p| pfail("alloc_bytes", p))? { Err(_) => break, Ok(a) => { put(c, &mut sh, size, align, a, n)?; n += 1; } }
+                ensure!(n as usize <= cap, "capacity_not_refused", "{n} blocks of {size} byte(s) handed out by a {cap}-byte allocator");
+            }
+        }
+        1 => { // blocks around 2^16 / 2^17 with alignments up to 65536, until refusal
+            for i in 0..200u64 {
+                let size = *c.rng.pick(&[65_535usize, 65_536, 65_537, 131_071, 131_073, 1]); let align = *c.rng.pick(&[1usize, 8, 16, 4096, 65_536]); script += &format!("b{size}/{align} ");
+                match alloc(size, align).map_err(|p| pfail("alloc_bytes", p))? { Err(_) => { if i > 3 && c.rng.bool() { break; } } Ok(a) => { put(c, &mut sh, size, align, a, n)?; n += 1; } }
+            }
+        }
+        _ => { // > 65536 elements through the typed API
+            if let Some(b) = &plain {
+                let cnt = *c.rng.pick(&[65_537usize, 100_003]).min(&(cap / 16)); script = format!("slice_u32x{cnt} bumpvec_u64x{}", cnt / 2);
+                if let Ok(p) = catch(|| b.alloc_slice::<u32>(cnt)).map_err(|p| pfail("alloc_slice", p))? { put(c, &mut sh, cnt * 4, 4, p.as_ptr() as *mut u32 as usize, n)?; n += 1; }
+                if let Ok(mut v) = catch(|| BumpVec::<u64>::new_in(b, cnt / 2)).map_err(|p| pfail("BumpVec::new_in", p))? {
+                    for i in 0..cnt / 2 { v.push(i as u64 ^ 0x5555).map_err(|e| bad("alloc_err", format!("push {i} within capacity: {e}")))?; }
+                    ensure!(v.push(0).is_err(), "capacity_not_refused", "BumpVec accepted a push beyond its capacity {}", cnt / 2);
+                    let a = v.as_slice().as_ptr() as usize; ensure!(a % 8 == 0, "misaligned", "BumpVec<u64> storage at {a:#x}");
+                    if let Some(o) = sh.overlap(a, cnt / 2 * 8) { return Err(bad("overlap", format!("BumpVec storage: {o}"))); }
+                    ensure!(v.as_slice().iter().enumerate().all(|(i, &x)| x == i as u64 ^ 0x5555), "content_corrupt", "BumpVec with {} elements lost its contents", cnt / 2); c.ev(cnt as u64 / 2); n += 1;
+                }
+            } else { let s = scope.as_ref().unwrap(); let cnt = 65_537usize.min(cap / 8); script = format!("scope slice_u32x{cnt}");
+                if let Ok(p) = catch(|| s.alloc_slice::<u32>(cnt)).map_err(|p| pfail("alloc_slice", p))? { put(c, &mut sh, cnt * 4, 4, p.as_ptr() as *mut u32 as usize, n)?; n += 1; } }
+            // then tiny blocks to the end
+            let fsz = (remaining() / 100_000).max(1);
+            loop { match alloc(fsz, 1).map_err(|p| pfail("alloc_bytes", p))? { Err(_) => break, Ok(a) => { put(c, &mut sh, fsz, 1, a, n)?; n += 1; } } ensure!(n as usize <= cap + 2, "capacity_not_refused", "{n} blocks from a {cap}-byte allocator"); }
+        }
+    }
+    c.input_str("ops", &script);
+    if let Some((a, sz)) = unsafe { sh.verify_all() } { return Err(bad("content_corrupt", format!("bump block at {a:#x} (+{sz}) lost its contents ({n} blocks live)"))); }
+    c.ev(sh.len() as u64); c.note("allocs", n); if n > 65_536 { c.note("live_gt_65536", 1); } if n > 100_000 { c.note("live_gt_100000", 1); }
+    c.set_nontrivial(n >= 2);
+    Ok(())
+}
+
+/// huge_: CacheAlignedVec grown past 2^16 / 10^5 / 2^17 elements (every doubling step re-allocates and copies), then
+/// pop / truncate / clear / regrow. Exact oracle: a std Vec model compared at checkpoints (linear).
+fn cachevec_huge_case<T: PatT>(c: &mut Case) -> Res {
+    let target_len = *c.rng.pick(&[65_537usize, 100_003, 131_073]);
+    let pre = if c.rng.bool() { *c.rng.pick(&[0usize, 65_536, 65_537, 131_073]) } else { 0 };
+    c.input_str("cfg", &format!("elem_size={} len={target_len} with_capacity={pre}", std::mem::size_of::<T>()));
+    let mut v = if pre == 0 { CacheAlignedVec::<T>::new() } else { catch(|| CacheAlignedVec::<T>::with_capacity(pre)).map_err(|p| pfail("with_capacity", p))?.map_err(|e| bad("ctor_err", e.to_string()))? };
+    let mut m: Vec<T> = Vec::new(); let mut reallocs = 0u64; let mut last_ptr = 0usize;
+    let mut check = |c: &mut Case, v: &CacheAlignedVec<T>, m: &Vec<T>, when: &str| -> Res {
+        ensure!(v.len() == m.len() && v.capacity() >= v.len(), "short_block", "{when}: len {} model {} capacity {}", v.len(), m.len(), v.capacity());
+        if v.capacity() > 0 { let a = v.as_slice().as_ptr() as usize; ensure!(a % 64 == 0, "misaligned", "{when}: storage at {a:#x} is not 64-byte aligned"); }
+        if let Some(i) = (0..m.len()).find(|&i| v.as_slice()[i] != m[i]) { return Err(bad("content_corrupt", format!("{when}: element {i} of {} is {:?}, want {:?}", m.len(), v.as_slice()[i], m[i]))); }
+        c.ev(1 + m.len() as u64 / 64); Ok(())
+    };
+    for i in 0..target_len {
+        let x = T::mk((i % 251) as u8 + 1);
+        catch(|| v.push(x)).map_err(|p| pfail(&format!("push #{i}"), p))?.map_err(|e| bad("alloc_err", format!("push #{i}: {e}")))?; m.push(x);
+        let p = v.as_slice().as_ptr() as usize;
+        if p != last_ptr { last_ptr = p; reallocs += 1; check(c, &v, &m, &format!("after the re-allocation at len {}", m.len()))?; }
+        else if i == 65_535 || i == 65_536 || i == 99_999 || i == 131_071 || i + 1 == target_len { check(c, &v, &m, &format!("at len {}", m.len()))?; }
+    }
+    // shrink below the thresholds and grow again
+    for _ in 0..1000 { let a = v.pop(); let b = m.pop(); ensure!(a == b, "content_corrupt", "pop returned {a:?}, want {b:?}"); }
+    let keep = *c.rng.pick(&[65_536usize, 65_537, 1000, 0]).min(&m.len()); v.truncate(keep); m.truncate(keep); check(c, &v, &m, "after truncate")?;
+    catch(|| v.reserve(target_len)).map_err(|p| pfail("reserve", p))?.map_err(|e| bad("alloc_err", e.to_string()))?; check(c, &v, &m, "after reserve")?;
+    for i in 0..70_000usize { let x = T::mk((i % 199) as u8 + 3); v.push(x).map_err(|e| bad("alloc_err", e.to_string()))?; m.push(x); }
+    check(c, &v, &m, "after regrow")?;
+    v.clear(); m.clear(); check(c, &v, &m, "after clear")?;
+    c.note("reallocs", reallocs); c.note("pushes", target_len as u64 + 70_000); c.set_nontrivial(true);
     Ok(())
 }
 
@@ -1037,6 +1277,46 @@ pub fn run(ctx: &mut Ctx) {
             let n = match fam { Fam::Mixed => k(ctx, 10, 300), Fam::Pairs => k(ctx, 5, 100), Fam::Exhaust => k(ctx, 5, 100), Fam::Refuse => k(ctx, 4, 60), _ => k(ctx, 3, 3) };
             for idx in 0..n { ctx.case(&target, fam.name(), idx, |c| { if threaded { in_thread(c, |c| history(c, fam, |c| five_mk(c, which))) } else { history(c, fam, |c| five_mk(c, which)) } }); }
         }
+    }
+    // ---- huge_ families (large-input coverage): a handful of cases per target ----
+    let h = ctx.n(2, 30) as u64;
+    let big_tab = |mut t: SizeTab| { t.max = 3 << 20; t };
+    for idx in 0..h {
+        // LockFreeMemoryPool
+        for which in ["default", "compact"] { ctx.case(&format!("lf/{which}"), "huge_live", idx, |c| history_huge(c, Huge::Live, |c| Ok(Setup { pool: lf_mk(c, which)?, tab: lf_tab(true), tagger: Box::new(lf_tags) }))); }
+        for which in ["compact", "small"] { ctx.case(&format!("lf/{which}"), "huge_cycle", idx, |c| history_huge(c, Huge::Cycle, |c| Ok(Setup { pool: lf_mk(c, which)?, tab: lf_tab(false), tagger: Box::new(lf_tags) }))); }
+        for which in ["default", "highperf"] { ctx.case(&format!("lf/{which}"), "huge_sizes", idx, |c| history_huge(c, Huge::Sizes, |c| Ok(Setup { pool: lf_mk(c, which)?, tab: big_tab(lf_tab(false)), tagger: Box::new(lf_tags) }))); }
+        for j in 0..2 { ctx.case("lf/small", "huge_cfg", idx * 2 + j, |c| history_huge(c, Huge::Cfg, |c| Ok(Setup { pool: lf_mk(c, "huge_cfg")?, tab: lf_tab(true), tagger: Box::new(lf_tags) }))); }
+        // SecureMemoryPool
+        ctx.case("secure/rand", "huge_live", idx, |c| history_huge(c, Huge::Live, |c| Ok(Setup { pool: sec_mk(c, "huge_live")?, tab: fixed_tab(8), tagger: no_tags() })));
+        ctx.case("secure/rand", "huge_sizes", idx, |c| history_huge(c, Huge::Cfg, |c| Ok(Setup { pool: sec_mk(c, "huge_sizes")?, tab: fixed_tab(8), tagger: no_tags() })));
+        for j in 0..3 { ctx.case("secure/rand", "huge_cfg", idx * 3 + j, |c| history_huge(c, Huge::Cfg, |c| Ok(Setup { pool: sec_mk(c, "huge_cfg")?, tab: fixed_tab(8), tagger: no_tags() }))); }
+        // ThreadLocalMemoryPool
+        for which in ["default", "compact"] { let arena = tl_cfg(which).arena_size; ctx.case(&format!("tlmp/{which}"), "huge_live", idx, |c| in_thread(c, |c| history_huge(c, Huge::Live, |c| Ok(Setup { pool: tl_mk(c, which)?, tab: tl_tab(arena, false), tagger: Box::new(tl_tags(arena)) })))); }
+        for which in ["default", "highperf"] { let arena = tl_cfg(which).arena_size; ctx.case(&format!("tlmp/{which}"), "huge_sizes", idx, |c| in_thread(c, |c| history_huge(c, Huge::Sizes, |c| Ok(Setup { pool: tl_mk(c, which)?, tab: big_tab(tl_tab(arena, false)), tagger: Box::new(tl_tags(arena)) })))); }
+        for j in 0..2 { ctx.case("tlmp/custom", "huge_cfg", idx * 2 + j, |c| in_thread(c, |c| history_huge(c, Huge::Cfg, |c| { let cfg = tl_custom_cfg(c); let arena = cfg.arena_size; let mut tab = tl_tab(arena, false); tab.big.extend_from_slice(&[arena / 4, arena / 4 + 1, arena / 2]); Ok(Setup { pool: tl_mk_cfg(c, "custom", cfg)?, tab, tagger: Box::new(tl_tags(arena)) }) }))); }
+        // FixedCapacityMemoryPool
+        for (target, which) in [("fc/custom", "huge_blocks"), ("fc/small", "small")] { ctx.case(target, "huge_live", idx, |c| history_huge(c, Huge::Live, |c| { let (pool, tab) = fc_mk(c, which)?; Ok(Setup { pool, tab, tagger: no_tags() }) })); }
+        for (target, which) in [("fc/custom", "huge_blocks"), ("fc/small", "small"), ("fc/secure", "secure")] { ctx.case(target, "huge_cycle", idx, |c| history_huge(c, Huge::Cycle, |c| { let (pool, tab) = fc_mk(c, which)?; Ok(Setup { pool, tab, tagger: no_tags() }) })); }
+        for (target, which) in [("fc/custom", "huge_sizes"), ("fc/medium", "medium")] { ctx.case(target, "huge_sizes", idx, |c| history_huge(c, Huge::Sizes, |c| { let (pool, tab) = fc_mk(c, which)?; Ok(Setup { pool, tab, tagger: no_tags() }) })); }
+        for j in 0..3 { ctx.case("fc/custom", "huge_cfg", idx * 3 + j, |c| history_huge(c, Huge::Cfg, |c| { let (pool, tab) = fc_mk(c, "huge_cfg")?; Ok(Setup { pool, tab, tagger: no_tags() }) })); }
+        // MemoryPool
+        ctx.case("mempool/custom", "huge_live", idx, |c| history_huge(c, Huge::Live, |c| Ok(Setup { pool: mp_mk(c, "huge_live")?, tab: fixed_tab(8), tagger: no_tags() })));
+        ctx.case("mempool/custom", "huge_sizes", idx, |c| history_huge(c, Huge::Cfg, |c| Ok(Setup { pool: mp_mk(c, "huge_sizes")?, tab: fixed_tab(8), tagger: no_tags() })));
+        for j in 0..2 { ctx.case("mempool/custom", "huge_cfg", idx * 2 + j, |c| history_huge(c, Huge::Cfg, |c| Ok(Setup { pool: mp_mk(c, "huge_cfg")?, tab: fixed_tab(8), tagger: no_tags() }))); }
+        ctx.case("pooled", "huge_sizes", idx, |c| pooled_case_m(c, false, true));
+        // bump / CacheAlignedVec
+        ctx.case("bump/alloc", "huge_script", idx, |c| bump_huge_case(c, false)); ctx.case("bump/alloc", "huge_script", idx + h, |c| bump_huge_case(c, false)); ctx.case("bump/arena_scope", "huge_script", idx, |c| bump_huge_case(c, true));
+        ctx.case("cachevec/u64", "huge_grow", idx, cachevec_huge_case::<u64>); ctx.case("cachevec/b24", "huge_grow", idx, cachevec_huge_case::<[u8; 24]>); ctx.case("cachevec/u8", "huge_grow", idx, cachevec_huge_case::<u8>);
+        // tiered / mmap / NUMA helpers
+        for which in ["default", "global"] { ctx.case(&format!("tiered/{which}"), "huge_sizes", idx, |c| history_huge(c, Huge::Sizes, |c| Ok(Setup { pool: tier_mk(c, which)?, tab: big_tab(tier_tab(false)), tagger: no_tags() }))); }
+        ctx.case("mmap", "huge_sizes", idx, |c| history_huge(c, Huge::Sizes, |c| { let (pool, tab) = mm_mk(c)?; Ok(Setup { pool, tab: big_tab(tab), tagger: no_tags() }) }));
+        ctx.case("numa/plain", "huge_sizes", idx, |c| history_huge(c, Huge::Sizes, |c| { c.input_str("cfg", "init_numa_pools=false"); Ok(Setup { pool: Box::new(NumaAd { aligns: HashMap::new(), pools: false }), tab: SizeTab { bounds: vec![], max: 3 << 20, big: vec![], aligns: vec![1, 64, 4096, 65536], min: 1, live_bytes: 0, exact: false }, tagger: no_tags() }) }));
+        // five-level family
+        for which in ["nolock", "mutex", "lockfree", "fixed", "tlocal"] { let threaded = which == "tlocal"; ctx.case(&format!("five/{which}"), "huge_live", idx, |c| { if threaded { in_thread(c, |c| history_huge(c, Huge::Live, |c| five_mk_with(c, which, 1))) } else { history_huge(c, Huge::Live, |c| five_mk_with(c, which, 1)) } }); }
+        for which in ["nolock", "lockfree", "fixed", "ad_l2"] { ctx.case(&format!("five/{which}"), "huge_cycle", idx, |c| history_huge(c, Huge::Cycle, |c| five_mk_with(c, which, 1))); }
+        for which in ["nolock", "mutex", "lockfree", "fixed", "ad_l1", "ad_l3", "ad_l5"] { ctx.case(&format!("five/{which}"), "huge_sizes", idx, |c| history_huge(c, Huge::Sizes, |c| { let mut s = five_mk_with(c, which, 1)?; s.tab = big_tab(s.tab); Ok(s) })); }
+        for which in ["nolock", "mutex", "lockfree", "tlocal", "fixed", "ad_l1", "ad_l2", "ad_l3", "ad_l4", "ad_l5", "ad_new"] { let threaded = matches!(which, "tlocal" | "ad_l4" | "ad_new"); ctx.case(&format!("five/{which}"), "huge_cfg", idx, |c| { if threaded { in_thread(c, |c| history_huge(c, Huge::Cfg, |c| five_mk_with(c, which, 2))) } else { history_huge(c, Huge::Cfg, |c| five_mk_with(c, which, 2)) } }); }
     }
     // ---- huge pages (inconclusive when the kernel grants none) ----
     for idx in 0..k(ctx, 2, 4) { ctx.case("hugepage", "pages", idx, hugepage_case); }
